@@ -3,13 +3,15 @@
 # records which violation signatures fired in meta.json (detected_by) and reverts. /repo must be clean and otherwise unused.
 export GOFLAGS=-mod=mod GOPROXY=off GOSUMDB=off GOTOOLCHAIN=local
 cd /verif || exit 9
-go build -o bin/vf ./cmd/vf || exit 9
-if ! git -C /repo diff --quiet; then echo "repo dirty"; exit 9; fi
+REPO=${REPO:-/repo}
+export VF_REPO=$REPO
+[ -n "$NOBUILD" ] || go build -o bin/vf ./cmd/vf || exit 9
+if ! git -C $REPO diff --quiet; then echo "repo dirty"; exit 9; fi
 for d in ${1:-/verif/seeded/C*}; do
   name=$(basename $d); id=${name%%-*}
-  if ! git -C /repo apply $d/patch.diff 2>/dev/null; then echo "$name: PATCH-DOES-NOT-APPLY"; continue; fi
+  if ! git -C $REPO apply $d/patch.diff 2>/dev/null; then echo "$name: PATCH-DOES-NOT-APPLY"; continue; fi
   out=$(timeout 1800 bin/vf check $id --tier quick 2>&1); rc=$?
-  git -C /repo checkout -- .
+  git -C $REPO checkout -- .
   sigs=$(echo "$out" | grep -o "sig=[^ ]*" | sed 's/sig=//' | sort -u | paste -sd' ')
   [ -n "$NOUPDATE" ] || python3 - "$d/meta.json" "$id" "$rc" "$sigs" <<'PY'
 import json,sys
@@ -20,4 +22,4 @@ json.dump(m,open(p,'w'),indent=1)
 PY
   echo "$name: exit=$rc sigs=[$sigs]"
 done
-git -C /repo status --short | head -3
+git -C $REPO status --short | head -3
